@@ -456,7 +456,8 @@ def run_rotation(case):
                                 "field": "{name}-{record._generated:%Y%m%dT%H}-{record.s}.records.gz",
                                 "offset": "{name}-{record._generated:%Y%m%dT%H}.records.gz",
                                 "dayshift": "{name}-{record._generated:%Y%m%dT%H}.records.gz",
-                                "zst": "{name}-{record._generated:%Y%m%dT%H}.records.zst"}[tkind])
+                                "zst": "{name}-{record._generated:%Y%m%dT%H}.records.zst",
+                                "noext": "{name}-{record._generated:%Y%m%dT%H}", "dotted": "{name}.v1.2-{record._generated:%Y%m%dT%H}.rec"}[tkind])
         hours = {"h1": 1, "h2": 2, "h3": 3}
         sentinels = []
         door = case.get("door", "template")
@@ -500,6 +501,7 @@ def run_rotation(case):
                 r = recs.build_record(rs("w/one", [["string", "s"], ["varint", "n"]], ["'%s'" % sval, str(i)], _generated=ts))
                 w.write(r)
                 prefix_ = {"dayshift": "2021/05/05/records-20210505T%s" % {"h1": "00", "h2": "01", "h3": "23"}[hb], "offset": "records-20210505T%s" % {"h1": "11", "h2": "12", "h3": "12"}[hb], "zst": "records-20210505T%02d" % hours[hb],
+                           "noext": "records-20210505T%02d" % hours[hb], "dotted": "records.v1.2-20210505T%02d" % hours[hb],
                            "hour": "records-20210505T%02d" % hours[hb], "minute": "records-20210505T%02d%02d" % (hours[hb], i),
                            "field": "records-20210505T%02d-%s" % (hours[hb], sval)}[tkind]
                 written.append((("w/one", i), prefix_))
@@ -609,6 +611,12 @@ def cases(tier, seed):
             for tk in ("minute", "field"):
                 for seq in itertools.product(["h1", "h2"], repeat=k):
                     yield {"kind": "rotation", "seq": list(seq), "pre": False, "clock": "advances", "template": tk}
+            # file names without an extension / with dots in the stem, rotated repeatedly within one clock second
+            for tk in ("noext", "dotted"):
+                for seq in itertools.product(["h1", "h2"], repeat=k + 1):
+                    for clock in ("advances", "same-second"):
+                        for pre in (False, True):
+                            yield {"kind": "rotation", "seq": list(seq), "pre": pre, "clock": clock, "template": tk}
 
 
 def main(tier, seed, workers=None):
